@@ -462,6 +462,28 @@ class C06(Base):
 
     def __init__(self, acc):
         super().__init__(acc)
+        self.initial = None
+
+    def on_reset(self, subj, obs, info):
+        """The goal query right after a reset (whatever happened before) and
+        on the kept initial state."""
+        acc = self.acc
+        acc.evaluations += 1
+        cur = subj.current()
+        want = subj.model.goal(subj.lay.status(cur.tensor))
+        for label, got in (("goal_reached()", subj.env.goal_reached()),
+                           ("goal_reached(current)",
+                            subj.env.goal_reached(cur))):
+            if bool(got) != want:
+                acc.violation("goal_query", "goal_query:after_reset",
+                              {"query": label, "got": got, "expected": want},
+                              {"kind": "dyn", "spec": subj.spec.canonical()
+                               if len(subj.spec.addrs) < 30 else None,
+                               "route": subj.route, "modes": subj.modes,
+                               "hist": [], "op": ["reset"]})
+        if self.initial is None:
+            self.initial = cur.copy()
+        acc.count("goal_queries_after_reset")
 
     def goal(self, subj, S):
         return subj.model.goal(S)
@@ -483,6 +505,19 @@ class C06(Base):
             acc.violation("goal_query", mech_of(T, "goal_query"),
                           {"goal_reached(state)": q, "expected": g},
                           T)
+        # ... and for states other than the one just produced: the argument
+        # state of this call and the kept initial state
+        g0 = self.goal(subj, T.S)
+        if bool(subj.env.goal_reached(T.arg_state)) != g0:
+            acc.violation("goal_query", "goal_query:other_state",
+                          {"state": "argument state of the call",
+                           "expected": g0}, T)
+        if self.initial is not None and g and \
+                bool(subj.env.goal_reached(self.initial)):
+            acc.violation("goal_query", "goal_query:other_state",
+                          {"state": "kept initial state", "expected": False},
+                          T)
+        acc.count("goal_queries_on_other_states")
         lim = subj.spec.step_limit
         if T.via == "step":
             n = subj.step_calls
@@ -922,6 +957,31 @@ class C13(Base):
             acc.count("lookaheads_on_pooled_state")
             acc.nontrivial(subj.fp, "pooled", T.key())
         acc.count("lookaheads")
+
+    @staticmethod
+    def digest(T):
+        if T.raised:
+            return ("raised", T.raised.split(":")[0])
+        return (T.post.tobytes(), T.obs.tobytes(), float(T.reward),
+                bool(T.done), flags_of(T.info), float(T.info.get("value", 0)))
+
+    def check_repeat(self, T, digest):
+        """The same generative_step(state, action) under the same draw, made
+        again later: the result may not depend on anything else."""
+        acc = self.acc
+        acc.evaluations += 1
+        now = self.digest(T)
+        if now != digest:
+            what = ["raised"] if now[0] == "raised" or digest[0] == "raised" \
+                else [n for n, a, b in zip(("next state", "observation",
+                                            "reward", "terminal flag",
+                                            "flags", "value"), now, digest)
+                      if a != b]
+            acc.violation("generative_step_depends_on_history",
+                          "gen_depends_on_history:" + "+".join(what),
+                          {"differs_in": what}, T)
+        acc.count("repeated_lookaheads_on_pooled_states")
+        acc.nontrivial(T.subj.fp, "repeat", T.key())
 
     def check_pair(self, Tg, Ts):
         """Tg: generative_step(current, a) ; Ts: step(a), same seed."""
